@@ -289,6 +289,7 @@ pub fn explore_rule(ctx: &Ctx, gi: usize, ri: usize, rep: &mut Report, note: &dy
         "C08" => c08(ctx, gi, ri, rep, note),
         "C09" => c09(ctx, gi, ri, rep, note),
         "C10" => c10(ctx, gi, ri, rep, note),
+        "C11" => c11(ctx, gi, ri, rep, note),
         other => {
             rep.model_error(format!("unknown lens {}", other));
         }
@@ -1186,6 +1187,52 @@ fn c10(ctx: &Ctx, gi: usize, ri: usize, rep: &mut Report, note: &dyn Fn(&str)) {
                 pf.err.as_ref().and_then(|e| e.text.as_deref()).unwrap_or(""),
                 J::s(&format!("prefix matched up to {}, error at {}", m_end, pf.err.as_ref().map(|e| e.pos).unwrap_or(0))),
             ));
+        }
+    }
+}
+
+// ---------------------------------------------------------------------------------------------
+// C11 (termination half): every parse of every input returns on well-founded grammar/input pairs.
+// The watchdog in `pegx::main` turns a parse that does not return into a HANG report.
+
+fn c11(ctx: &Ctx, gi: usize, ri: usize, rep: &mut Report, note: &dyn Fn(&str)) {
+    let e = &ctx.entries[gi];
+    let g = &ctx.grammars[gi];
+    let inputs = inputs_for(ctx, e, 0);
+    let w = what::PP | what::PF | what::CP | what::CF;
+    for input in &inputs {
+        let case = Case {
+            ctx,
+            gi,
+            ri,
+            input,
+            form: Form::Str,
+            a: 0,
+            b: input.len(),
+            init: &[],
+        };
+        let r = m::run(g, ri, input, "", &[], false, Atom::NonAtomic);
+        rep.states += r.stats.states;
+        rep.transitions += r.stats.transitions;
+        if r.diverged || r.nonprogress {
+            rep.ill_founded += 1;
+            continue;
+        }
+        note(&case.id());
+        rep.cases += 1;
+        match typed(e, ri, &case.req(w)) {
+            Ok(o) => {
+                rep.impl_validated += 1;
+                if r.stats.transitions > 8 {
+                    rep.nontrivial += 1;
+                }
+                let pp = o.pp.as_ref().unwrap();
+                rep.outcome(format!("{}:{}", pp.ok, pp.end));
+                if rep.samples.len() < 2 && r.stats.transitions > 30 {
+                    rep.sample(case.sample(&call_str(&o.pp), J::s(&format!("returned; the reference machine needed {} steps", r.stats.transitions))));
+                }
+            }
+            Err(p) => rep.violation(case.violation("typed-panic", "returns".into(), format!("panic: {}", p), String::new())),
         }
     }
 }
